@@ -419,7 +419,19 @@ func (w *world) hits(n *pb.Notification) []int {
 	return out
 }
 
+// hung counts cases stopped by the watchdog; after maxHung the remaining
+// generated cases are not run (every one of them would wait for the watchdog).
+var hung int
+
+const maxHung = 8
+
 func run(ops []Op) []Obs {
+	limit := 5 * time.Second
+	for _, o := range ops {
+		if o.K == "conc" {
+			limit += 20 * time.Second
+		}
+	}
 	done := make(chan []Obs, 1)
 	go func() {
 		w := newWorld()
@@ -433,7 +445,8 @@ func run(ops []Op) []Obs {
 	select {
 	case out := <-done:
 		return out
-	case <-time.After(20 * time.Second):
+	case <-time.After(limit):
+		hung++
 		out := make([]Obs, len(ops))
 		for i := range out {
 			out[i] = Obs{Kind: "panic", Msg: "hang"}
@@ -594,7 +607,7 @@ func randNames(r *vh.Rand, maxLen, globW int) []string {
 	n := r.Intn(maxLen + 1)
 	p := make([]string, n)
 	for i := range p {
-		p[i] = []string{"a", "b", "c", "*"}[r.Pick(5, 4, 2, globW)]
+		p[i] = []string{"a", "b", "c", "*", ""}[r.Pick(15, 12, 6, 3*globW, 1)]
 	}
 	return p
 }
@@ -642,7 +655,20 @@ func randGPath(r *vh.Rand, ns []string) *GPath {
 		}
 		g.Elems = append(g.Elems, e)
 	}
+	if len(g.Elems) > 0 && r.Chance(1, 10) {
+		// the deprecated field next to the new one: ignored when Elem is set
+		g.Element = []string{"zz", "*"}
+	}
 	return g
+}
+
+// longNames: more names than path.ToStrings' initial capacity (20)
+func longNames(r *vh.Rand) []string {
+	l := make([]string, 18+r.Intn(8))
+	for i := range l {
+		l[i] = []string{"a", "b"}[r.Intn(2)]
+	}
+	return l
 }
 
 func randTarget(r *vh.Rand) string {
@@ -664,6 +690,11 @@ func randSub(r *vh.Rand, c int, known *[][]string) Op {
 		pre.Origin = "oc"
 	}
 	n := 1 + r.Pick(4, 4, 2)
+	if r.Chance(1, 30) {
+		n = 0 // a list without entries
+	} else if r.Chance(1, 20) {
+		n = 5 + r.Intn(4)
+	}
 	o := Op{K: "sub", C: c, Pre: pre}
 	// Names containing separator-like bytes: one element "a/b" is not the two
 	// elements a, b.  A joined spelling and its split spelling in one list, in
@@ -704,9 +735,15 @@ func randSub(r *vh.Rand, c int, known *[][]string) Op {
 		} else {
 			ns = randNames(r, 3, 2)
 		}
+		if r.Chance(1, 40) {
+			ns = append(ns, longNames(r)...)
+		}
 		e := randGPath(r, ns)
 		if r.Chance(1, 10) {
 			e.Origin = "oc"
+		}
+		if r.Chance(1, 10) {
+			e.Target = "dev9" // a target inside a subscription path is not indexed
 		}
 		o.Ents = append(o.Ents, e)
 		*known = append(*known, ns)
@@ -734,6 +771,9 @@ func randNotif(r *vh.Rand, known [][]string) Op {
 			ns = mutate(r, known[r.Intn(len(known))])
 		} else {
 			ns = randNames(r, 3, 1)
+		}
+		if r.Chance(1, 40) {
+			ns = append(ns, longNames(r)...)
 		}
 		var g *GPath
 		if !r.Chance(1, 20) {
@@ -1087,6 +1127,10 @@ type emitter struct {
 }
 
 func (e *emitter) add(family string, ops []Op) {
+	if hung >= maxHung && family != "corpus" && family != "replay" {
+		e.meta.Hist("not-run-after-too-many-hangs")
+		return
+	}
 	c := Case{Family: family, Ops: ops, Obs: run(ops)}
 	e.cf.Add(caseTerm(e.cf.Names, c), c)
 	for i, o := range c.Ops {
